@@ -71,3 +71,111 @@ def mk_dim(B, name, n_elems, dimension_type=None, subtotals=True, **extra):
         attrs["dimension_type"] = dimension_type
     attrs.update(extra)
     return B.stub(name, **attrs), st
+
+
+class CubeCountsIface:
+    """Abstract interface of a _BaseCubeCounts object, as exported by the nine classes
+    verified in matrix_cubemeasure_c.py (see `iface_*` obligations there):
+
+      counts >= 0;  row_bases, column_bases >= counts;  table_bases >= row/column bases
+      columns CAT  =>  rows_base[i] == row_bases[i, j] == sum_j counts[i, j],
+                       rows_table_base[i] == table_bases[i, j]
+      rows CAT     =>  mirror image;   both CAT => table_base == sum_ij counts
+    All dependent tensors are built constructively from free non-negative ingredients so
+    that the same description yields symbolic terms (P/B) and random concrete inputs (C).
+    """
+
+    def __init__(self, B, tag, R, C, rows_cat, cols_cat, diff_nans=False):
+        self.B = B
+        cnt = B.tensor(tag + ".counts", (R, C), nonneg=True)
+        self.counts = cnt
+        rd = B.rd
+        if cols_cat:
+            self.rows_base = B.spec_tensor((R,), lambda i: B.Sum(C, lambda j: rd(cnt, i, j)))
+            self.row_bases = B.spec_tensor((R, C), lambda i, j: rd(self.rows_base, i))
+        else:
+            e = B.tensor(tag + ".e_rb", (R, C), nonneg=True)
+            self.rows_base = None
+            self.row_bases = B.spec_tensor((R, C), lambda i, j: rd(cnt, i, j) + rd(e, i, j))
+        if rows_cat:
+            self.columns_base = B.spec_tensor((C,), lambda j: B.Sum(R, lambda i: rd(cnt, i, j)))
+            self.column_bases = B.spec_tensor((R, C), lambda i, j: rd(self.columns_base, j))
+        else:
+            e2 = B.tensor(tag + ".e_cb", (R, C), nonneg=True)
+            self.columns_base = None
+            self.column_bases = B.spec_tensor((R, C), lambda i, j: rd(cnt, i, j) + rd(e2, i, j))
+        self.table_base = None
+        self.rows_table_base = None
+        self.columns_table_base = None
+        if rows_cat and cols_cat:
+            tb = B.Sum(R, lambda i: B.Sum(C, lambda j: rd(cnt, i, j)))
+            self.table_base = tb
+            self.table_bases = B.spec_tensor((R, C), lambda i, j: tb)
+            self.rows_table_base = B.spec_tensor((R,), lambda i: tb)
+            self.columns_table_base = B.spec_tensor((C,), lambda j: tb)
+        elif cols_cat:
+            et = B.tensor(tag + ".e_tb", (R,), nonneg=True)
+            self.rows_table_base = B.spec_tensor(
+                (R,), lambda i: B.Sum(C, lambda j: rd(self.column_bases, i, j)) + rd(et, i)
+            )
+            self.table_bases = B.spec_tensor((R, C), lambda i, j: rd(self.rows_table_base, i))
+        elif rows_cat:
+            et = B.tensor(tag + ".e_tb", (C,), nonneg=True)
+            self.columns_table_base = B.spec_tensor(
+                (C,), lambda j: B.Sum(R, lambda i: rd(self.row_bases, i, j)) + rd(et, j)
+            )
+            self.table_bases = B.spec_tensor((R, C), lambda i, j: rd(self.columns_table_base, j))
+        else:
+            et = B.tensor(tag + ".e_tb", (R, C), nonneg=True)
+            self.table_bases = B.spec_tensor(
+                (R, C),
+                lambda i, j: rd(self.row_bases, i, j) + rd(self.column_bases, i, j) - rd(cnt, i, j) + rd(et, i, j),
+            )
+        self.diff_nans = diff_nans
+        self.stub = B.stub(
+            tag + "_cube_counts",
+            counts=self.counts,
+            row_bases=self.row_bases,
+            column_bases=self.column_bases,
+            table_bases=self.table_bases,
+            rows_base=self.rows_base,
+            columns_base=self.columns_base,
+            rows_table_base=self.rows_table_base,
+            columns_table_base=self.columns_table_base,
+            table_base=self.table_base,
+            diff_nans=diff_nans,
+        )
+
+
+class SliceEnv:
+    """State shared by the measure-level contracts: two dimensions with subtotals and the
+    weighted / unweighted cube-count interfaces."""
+
+    def __init__(self, B, rows_cat=True, cols_cat=True, rows_date=False, cols_date=False, diff_nans=False):
+        self.B = B
+        self.rows_cat, self.cols_cat = rows_cat, cols_cat
+        DT = B.enum("enums:DIMENSION_TYPE")
+        self.DT = DT
+        self.R = R = B.size("R", lo=1)
+        self.C = C = B.size("C", lo=1)
+        rtype = (DT.CAT_DATE if rows_date else DT.CAT) if rows_cat else DT.MR_SUBVAR
+        ctype = (DT.CAT_DATE if cols_date else DT.CAT) if cols_cat else DT.MR_SUBVAR
+        self.rdim, self.rows = mk_dim(B, "rows", R, dimension_type=rtype, subtotals=rows_cat)
+        self.cdim, self.cols = mk_dim(B, "cols", C, dimension_type=ctype, subtotals=cols_cat)
+        self.dims = (self.rdim, self.cdim)
+        self.w = CubeCountsIface(B, "w", R, C, rows_cat, cols_cat, diff_nans)
+        self.u = CubeCountsIface(B, "u", R, C, rows_cat, cols_cat, diff_nans)
+        self.cube_measures = B.stub(
+            "cube_measures", weighted_cube_counts=self.w.stub, unweighted_cube_counts=self.u.stub
+        )
+
+    @staticmethod
+    def size_space(rows_cat=True, cols_cat=True):
+        sp = {"R": [1, 2, 3], "C": [1, 2, 3]}
+        if rows_cat:
+            sp.update(size_space_subtotals("rows"))
+        if cols_cat:
+            sp.update(size_space_subtotals("cols"))
+        return sp
+
+    CAT_CONFIGS = [dict(rc=rc, cc=cc) for rc in (True, False) for cc in (True, False)]
